@@ -200,5 +200,8 @@ C10_NowrapFalsePure ==
 RemOnlyForCached ==
   \A n \in Names, k \in AllKeys : (cache[n][k] = Absent) => rem[n][k] = Zero
 
-DumpL == PrintT(<<"TR", ToJson(view), ToJson(ev'), ToJson(view'), TLCGet("level")>>)
+\* canonical rendering for the dump: sets as boolean functions
+viewJ == <<raw, cacheHas, cache, rem, last, carry,
+           [n \in Names |-> [k \in AllKeys |-> k \in taint[n]]], ncalls>>
+DumpL == PrintT(<<"TR", ToJson(viewJ), ToJson(ev'), ToJson(viewJ'), TLCGet("level")>>)
 =============================================================================
